@@ -46,6 +46,12 @@ def is_denied(ev):
     return any(c.startswith(p) for p in DENY_PREFIX if p not in ("core::convert::From::from", "core::num::<impl"))
 
 
+# core's blanket conversion impls only forward to the user-chosen From/TryFrom impl
+FORWARDERS = ("<T as core::convert::TryFrom<U>>::try_from", "<T as core::convert::Into<U>>::into",
+              "<T as core::convert::TryInto<U>>::try_into", "<T as core::convert::From<T>>::from")
+STD_CRATES = ("core", "std", "alloc")
+
+
 class Reach:
     def __init__(self, F, root_inst):
         self.F = F
@@ -53,6 +59,19 @@ class Reach:
         self.root = root_inst
         self.seen, self.parent = F.reachable(root_inst)
         self.local = [self.I[k] for k in sorted(self.seen) if self.I[k]["local"]]
+
+    def final_targets(self, ci):
+        todo, final, seen = [ci], [], set()
+        while todo:
+            t = todo.pop()
+            if t in seen:
+                continue
+            seen.add(t)
+            if self.I[t]["def"] in FORWARDERS:
+                todo.extend(c for c, h in self.I[t]["out"] if h == "call")
+            else:
+                final.append(t)
+        return final
 
     def path_to(self, k, limit=12):
         out = []
@@ -82,6 +101,19 @@ class Reach:
                         ev["inst_name"] = self.I[ci]["name"]
                     if is_denied(ev):
                         out.append((inst, ev, "call:" + (ev.get("callee") or "?")))
+                    elif ci is not None:
+                        # contract-panicking dependency API, computed: the dependency function the call
+                        # lands on (through core's forwarding conversion impls) directly enters the panic machinery
+                        for t in self.final_targets(ci):
+                            ti = self.I[t]
+                            if ti["local"] or ti["krate"] in STD_CRATES:
+                                continue
+                            pc = ti.get("panic_calls") or []
+                            if pc:
+                                e2 = dict(ev)
+                                e2["dep_api"] = ti["name"]
+                                e2["dep_panics"] = pc
+                                out.append((inst, e2, "dep-api:" + ti["def"]))
                 elif e in ("rawderef", "asm", "thread_local"):
                     out.append((inst, ev, e))
                 elif e == "cast":
